@@ -63,6 +63,7 @@ structure CState where
   pc : LPC := .none
   sent : List (Stash × Bool) := []
   replied : List (Req × Bool) := []
+  rets : List (Nat × Bool) := []      -- ghost: synchronous CommitMessages calls that returned (request id, nil?)
   deriving Repr
 
 inductive CEv
@@ -77,6 +78,7 @@ inductive CEv
   | tick
   | genEnd
   | endLoop
+  | ret (id : Nat) (ok : Bool)     -- a SYNCHRONOUS CommitMessages call returns nil (ok) / the commit error
   deriving Repr
 
 def retries : Nat := 3
@@ -157,6 +159,9 @@ def cstep (s : CState) : CEv → Option CState
     match s.pc with
     | .done [] _ true => some { s with pc := .none }
     | _ => none
+  | .ret id ok =>
+    -- `case err := <-errch: return err`: only after the commit loop answered this request with that result
+    if s.replied.any (fun x => x.1.id == id && x.2 == ok) then some { s with rets := s.rets ++ [(id, ok)] } else none
 
 def crun : CState → List CEv → Option CState
   | s, [] => some s
